@@ -52,3 +52,16 @@ class LocalAssign(Statement):
             variable_name.name.parent(self, file_name)
             if variable_name.attribute:
                 variable_name.attribute.parent(self, file_name)
+
+    def replace_child(self, to_replace: ASTNode, replacement: ASTNode) -> None:
+        # the names are wrapped in AttributedName, which the generic scan does not look into
+        for variable_name in self.variable_names:
+            if variable_name.name is to_replace:
+                assert isinstance(replacement, Name)
+                variable_name.name = replacement
+                return
+            if variable_name.attribute is to_replace:
+                assert isinstance(replacement, Name)
+                variable_name.attribute = replacement
+                return
+        super().replace_child(to_replace, replacement)
